@@ -55,6 +55,7 @@ class MFDeviceSet(DeviceSet):
     return np.repeat(self._device.deriv(s.sum(axis=0), 0).reshape(1,len(self)), self.shape[0], axis=0).reshape(self.shape) + p
 
   def hess(self, s, p=0):
+    s = s.reshape(self.shape)
     return self._device.hess(s.sum(axis=0), 0)
 
   @property
